@@ -23,6 +23,9 @@ type SlotScope struct {
 	// Slots maps slot names to their content.
 	// Empty string key is the default slot.
 	Slots map[string]*SlotContent
+
+	// parent is the slot scope of the template that supplied this content.
+	parent *SlotScope
 }
 
 // NewSlotScope creates a new SlotScope for a component.
@@ -102,14 +105,23 @@ func (v *Vue) evalSlot(ctx VueContext, node *html.Node, slotScope *SlotScope, de
 				}
 
 				// Evaluate the template content (children of the template)
-				children, err := v.evaluateChildren(ctx, slotContent.TemplateNode, depth+1)
+				outer := ctx
+				outer.SlotScope = slotScope.parent
+				children, err := v.evaluateChildren(outer, slotContent.TemplateNode, depth+1)
 				if err != nil {
 					return nil, err
 				}
 				result = append(result, children...)
 			} else {
-				// Use the provided content as-is
-				result = append(result, slotContent.Nodes...)
+				// Evaluate the provided content (fresh nodes at every use) in the slot scope
+				// of the template that supplied it
+				outer := ctx
+				outer.SlotScope = slotScope.parent
+				children, err := v.evaluate(outer, slotContent.Nodes, depth+1)
+				if err != nil {
+					return nil, err
+				}
+				result = append(result, children...)
 			}
 
 			return result, nil
@@ -120,8 +132,8 @@ func (v *Vue) evalSlot(ctx VueContext, node *html.Node, slotScope *SlotScope, de
 	if inheritedSlotScopeData, ok := ctx.stack.EnvMap()["__slotScope__"]; ok {
 		if inheritedSlotScope, ok := inheritedSlotScopeData.(*SlotScope); ok {
 			if slotContent := inheritedSlotScope.GetSlot(slotName); slotContent != nil {
-				// Use the inherited slot content directly (already parsed as DOM nodes)
-				return slotContent.Nodes, nil
+				// Evaluate the inherited slot content (fresh nodes at every use)
+				return v.evaluate(ctx, slotContent.Nodes, depth+1)
 			}
 		}
 	}
